@@ -41,10 +41,13 @@ ADDSETS = {
 }
 # two modules the built-in list does not know, each with a different member: nothing "crosses over"
 ADDSETS["twonew"] = ["vp_sink.K", "vp_other.hit", "decimal.Decimal"]
+# additions whose module part is a look-alike (fullwidth letter, ligature, fullwidth full stop) of a listed module
+ADDSETS["lookalike"] = ["\uff43ollections.Counter", "\uff41rgparse.Action", "collections\uff0eCounter.x", "collec\ufb01ons.deque",
+                        "\uff43ollections.deque"]
 ADDSETS["variants"] = ["numpy._core.multiarray.scalar", "torch._utils._rebuild_qtensor", "collections.abc.Mapping",
                        "_io.StringIO", "copyreg.__newobj__", "__main__.Other"]
-OPS = ["act:none", "act:counter", "act:sinkK", "act:mixed", "act:variants", "act:twonew", "deact", "inst:counter", "inst:sinkK",
-       "inst:none", "inst:variants", "inst:twonew"]
+OPS = ["act:none", "act:counter", "act:sinkK", "act:mixed", "act:variants", "act:twonew", "act:lookalike", "deact", "inst:counter", "inst:sinkK",
+       "inst:none", "inst:variants", "inst:twonew", "inst:lookalike"]
 
 PROBES = {
     "collections.OrderedDict": b"ccollections\nOrderedDict\n)R.",      # in BASE
